@@ -5,6 +5,7 @@ import Pcore.Proofs.ObjectClosure
 import Pcore.Model.ObjectParams
 import Pcore.Proofs.ObjectAsg
 import Pcore.Proofs.ObjectFuncs
+import Pcore.Proofs.ObjectTyped
 import Pcore.Generated.ObjectSchema
 import Mathlib.Data.List.Perm.Subperm
 /-!
@@ -44,6 +45,10 @@ Full statement / proved / missing
 * `C17_equality_default`, `C17_equality_default_all` — proved: with no equality declared anywhere in the chain the compared
                          attributes are all positional ones, i.e. (without a serialization list) every attribute of the chain
                          that is neither constant nor derived.
+* `C17_valid_named`, `C17x_valid`, `C17_typed_define`, `C17_typed_env` — proved: accepted definitions hold well-typed defaults
+                         (`TypeTyped`), hence EVERY instance either constructor builds (named, fall-through, parameterized)
+                         is `Valid` — the hypothesis of `C17_equality` / `C17_equals_total` / `C17_inithash` is met by every
+                         constructed object, not only by positional ones.
 * `C17_subtype`        — proved: an ancestor (any non-empty suffix of the level list) accepts every instance;
                          `C17_subtype_strict`: a type never accepts an instance of a proper ancestor.
 * `C17_instance_closure` — proved: among the types of one loader (`defineAll [] ds = .ok env`, any number of definitions)
@@ -1383,6 +1388,126 @@ example : get { typ := [lvP], values := [.int 1, .int 5] } "p" = .ok (some (.int
   C17x_get (i := 1) wf_lvP (by decide : newPosX [lvP] [.int 1, .int 5] =
     .ok { obj := { typ := [lvP], values := [.int 1, .int 5] }, ext := [("p", .int 5)] }) rfl
 
+/-! ### every constructed instance is `Valid`: the hypotheses of the equality theorems hold for the NAMED constructor too -/
+
+/-- `InitFromHash` leaves well-typed defaults: every attribute of an accepted definition holds a declared value that is an
+    instance of its type, and a given_or_derived attribute's type accepts undef (`TypeTyped`) -/
+theorem C17_typed_define {env : List OType} {d : Def} {t : OType} (henv : ∀ t' ∈ env, TypeTyped t')
+    (h : define env d = .ok t) : TypeTyped t := define_typed henv h
+
+theorem C17_typed_env {env0 env : List OType} {ds : List Def} (h0 : ∀ t ∈ env0, TypeTyped t)
+    (h : defineAll env0 ds = .ok env) : ∀ t ∈ env, TypeTyped t := by
+  induction ds generalizing env0 with
+  | nil => simp [defineAll] at h; subst h; exact h0
+  | cons d ds ih =>
+    unfold defineAll at h
+    cases hd : define env0 d with
+    | error c => simp [hd] at h
+    | ok t =>
+      simp only [hd] at h
+      apply ih (env0 := env0 ++ [t]) _ h
+      intro t' ht'
+      simp only [List.mem_append, List.mem_singleton] at ht'
+      rcases ht' with ht' | ht'
+      · exact h0 t' ht'
+      · subst ht'; exact C17_typed_define h0 hd
+
+/-- whatever the named constructor builds — from a hash that matches the init Struct, or through the fall-through to the
+    positional signature — stores, at every position, an instance of the attribute's type, and at least the required
+    positions: it is `Valid`, like every positional construction (`valid_newPos`).  So `C17_equality`, `C17_equals_total`,
+    `C17_inithash` … apply to every instance either constructor can make. -/
+theorem C17_valid_named {t : OType} {es : List (String × Val)} {h : Val} {o : Obj} (hw : WF t) (ht : TypeTyped t)
+    (hn : newNamed t es h = .ok o) : Valid o := by
+  unfold newNamed at hn
+  by_cases hm : namedMatches (attrInfo t) es = true
+  · by_cases hc : coerceOk (attrInfo t) es = true
+    · simp only [hm, hc, if_true, pfh_result hm] at hn
+      cases hn
+      have hm' := hm
+      unfold namedMatches at hm'
+      simp only [Bool.and_eq_true, List.all_eq_true, attrInfo_attrs] at hm'
+      have hc' := hc
+      unfold coerceOk at hc'
+      simp only [List.all_eq_true, attrInfo_attrs] at hc'
+      have hfull : allInst (posAttrs t) ((posAttrs t).map (fun a => (es.lookup a.name).getD a.implicitT)) = true := by
+        apply allInst_filled
+        · intro a ha; exact ht a (posAttrs_mem_each ha)
+        · intro a ha v hv
+          have := hc' a ha
+          simpa [hv] using this
+        · intro a ha
+          have := hm'.2 a ha
+          simpa using this
+      obtain ⟨r, hr⟩ := trim_prefix (requiredCount t) (posAttrs t)
+        ((posAttrs t).map (fun a => (es.lookup a.name).getD a.implicitT))
+      constructor
+      · simp only
+        apply trim_length_ge
+        simp only [List.length_map]
+        unfold requiredCount
+        exact List.length_filter_le _ _
+      · simp only
+        rw [hr] at hfull
+        exact allInst_prefix hfull
+    · simp [hm, hc] at hn
+  · simp only [hm, Bool.false_eq_true, if_false] at hn
+    exact valid_newPos hn
+
+/-- the same for instances of parameterized types (either constructor of Model/ObjectParams) -/
+theorem C17x_valid {t : OType} (hw : WF t) (ht : TypeTyped t) :
+    (∀ vs o, newPosX t vs = .ok o → Valid o.obj) ∧ (∀ es h o, newNamedX t es h = .ok o → Valid o.obj) := by
+  have hpos : ∀ vs o, newPosX t vs = .ok o → Valid o.obj := by
+    intro vs o hn
+    obtain ⟨hty, hv, hreq, hden, hcase⟩ := newPosX_ok hw hn
+    obtain ⟨⟨t', va⟩, ext⟩ := o
+    simp only at hty hreq hcase ⊢
+    subst hty
+    rcases hcase with ⟨hva, -, -⟩ | ⟨hva, -⟩
+    · subst hva; exact hv
+    · refine ⟨hreq, ?_⟩
+      simp only
+      rw [hva]
+      have hlen : vs.length ≤ (posAttrs t').length := allInst_length hv.inst
+      have hfull : allInst (posAttrs t') (den (posAttrs t') vs) = true := by
+        have hnm := namedMatches_initHash (o := { typ := t', values := vs }) hw hv
+        have hco := coerceOk_initHash (o := { typ := t', values := vs }) hw hv
+        have hm' := hnm
+        unfold namedMatches at hm'
+        simp only [Bool.and_eq_true, List.all_eq_true, attrInfo_attrs] at hm'
+        unfold coerceOk at hco
+        simp only [List.all_eq_true, attrInfo_attrs] at hco
+        rw [← map_mvh_eq_den hw.nodup hw.god hlen]
+        apply allInst_filled
+        · intro a ha; exact ht a (posAttrs_mem_each ha)
+        · intro a ha v hv'
+          have := hco a ha
+          have hl : (initHash { typ := t', values := vs }).lookup a.name = some v := hv'
+          simpa [hl] using this
+        · intro a ha
+          have := hm'.2 a ha
+          simp only [Bool.or_eq_true] at this
+          exact this
+      obtain ⟨r, hr⟩ := trim_prefix (requiredCount t') (posAttrs t') (den (posAttrs t') vs)
+      rw [hr] at hfull
+      exact allInst_prefix hfull
+  refine ⟨hpos, ?_⟩
+  intro es h o hn
+  unfold newNamedX at hn
+  by_cases hm : namedMatches (attrInfo t) es = true
+  · by_cases hc : coerceOk (attrInfo t) es = true
+    · -- the stored values are those of the plain named constructor
+      have hplain : ∃ o0, newNamed t es h = .ok o0 ∧ o0 = o.obj := by
+        unfold newNamed
+        simp only [hm, hc, if_true, pfh_result hm] at hn ⊢
+        cases hn
+        exact ⟨_, rfl, rfl⟩
+      obtain ⟨o0, h0, he⟩ := hplain
+      rw [← he]
+      exact C17_valid_named hw ht h0
+    · simp [hm, hc] at hn
+  · simp only [hm, Bool.false_eq_true, if_false] at hn
+    exact hpos _ _ hn
+
 /-! ### the definition re-created from the InitHash of the type it defined -/
 
 /-- FULL statement: every accepted definition, re-created from the InitHash of the type it defined (`typeDef`, what
@@ -1497,6 +1622,13 @@ theorem sampleWF3 : WF sampleT3 :=
 example : (posAttrs sampleT3).map (·.name) = ["z", "a"] ∧ requiredCount sampleT3 = 1 := ⟨rfl, rfl⟩
 example : get { typ := sampleT3, values := [.str "x"] } "a" = .ok (some (.int 3)) :=
   C17_get (i := 1) sampleWF3 (rfl : newPos sampleT3 [.str "x"] = .ok _) rfl
+
+/-- hypotheses of `C17_valid_named`: the types of the sample hold well-typed defaults; a named construction on the grand-child -/
+example : TypeTyped sampleT2 :=
+  C17_typed_env (env0 := []) (by simp) (rfl : defineAll [] sampleDefs = .ok sampleEnv) sampleT2 (by decide)
+example : Valid { typ := sampleT2, values := [.int 1, .bool false] } :=
+  C17_valid_named (es := [("c", .bool false), ("a", .int 1)]) (h := .hash "") sampleWF
+    (C17_typed_env (env0 := []) (by simp) (rfl : defineAll [] sampleDefs = .ok sampleEnv) sampleT2 (by decide)) (by decide)
 
 /-- hypotheses of `C17_type_inithash_partial` / `C17_type_inithash_same`: the root of the sample (an attribute and a
     `constants` entry) and its grand-child (a default, a serialization order, an equality) are re-created from what they
